@@ -353,13 +353,7 @@ func checkC05(c *Ctx) {
 // programs up to the item bound, plus simulated deeper programs over two files.
 func scopeRuns(c *Ctx, p *pool.Pool, build func(id int, raw json.RawMessage) *Job, judge func(j *Job, r *proto.Result)) bool {
 	scSeed = c.Seed
-	c.Rep.Assumptions = append(c.Rep.Assumptions, "each program is laid out either one statement per line or all on one line (seeded choice; the thorough tier runs both layouts)")
-	if c.Thorough() && scPass == 0 && !scNoOneLine {
-		defer func() {
-			scPass = 1
-			scopeRunsOnce(c, p, build, judge, "_layout2")
-		}()
-	}
+	c.Rep.Assumptions = append(c.Rep.Assumptions, "each program is laid out either one statement per line or all on one line (a seeded choice per program, so that every run covers both layouts)")
 	return scopeRunsOnce(c, p, build, judge, "")
 }
 
@@ -395,7 +389,7 @@ func scopeRunsOnce(c *Ctx, p *pool.Pool, build func(id int, raw json.RawMessage)
 	}
 	num, depth := 3000, 12
 	if c.Thorough() {
-		num, depth = 60000, 18
+		num, depth = 30000, 18
 	}
 	if !c.streamRun("simulated"+sfx, tlc.Run{Module: "Scope", Workers: 1, Timeout: 60 * time.Minute,
 		Simulate: fmt.Sprintf("num=%d", num), Depth: depth + 1,
